@@ -711,5 +711,5 @@ func run(c *hx.Ctx) error {
 			}
 		}
 	}
-	return nil
+	return runE2E(c)
 }
